@@ -39,9 +39,10 @@ Theorem explicit_join_keys : forall self other a b,
   length a = length b -> join_keys self other (Some a) (Some b) = Ok (a, b).
 Proof. exact join_keys_explicit. Qed.
 
-(** cross join of two tables that both have rows = the product of the row lists *)
+(** cross join = the product of the row lists, for every pair of tables (a table
+    without rows gives the empty table) *)
 Theorem cross_join_spec : forall self other prefix,
-  wf self -> wf other -> nrows self <> 0%nat -> nrows other <> 0%nat -> hdr self <> [] ->
+  wf self -> wf other -> hdr self <> [] ->
   NoDup (hdr self ++ prefixed prefix (hdr other)) ->
   exists t,
     cross_join self other prefix = Ok t /\ wf t /\
@@ -49,47 +50,40 @@ Theorem cross_join_spec : forall self other prefix,
     rows t = spec_cross_join (rows self) (rows other).
 Proof. exact cross_join_product. Qed.
 
-(** ... and the guard on "both have rows" is necessary: the code raises ValueError
-    where the product of row lists is the empty table *)
-Theorem cross_join_empty_table_refuted : exists self other,
-  wf self /\ wf other /\ hdr self <> [] /\ NoDup (hdr self ++ prefixed right_ (hdr other)) /\
-  spec_cross_join (rows self) (rows other) = [] /\
-  joined self other None None false right_ = Er E_Value.
-Proof. exact cross_join_empty_refuted. Qed.
+(** joined(other, inner_join=False, col_prefix=p): the same, with the prefix "right_" whatever p is *)
+Theorem joined_cross_spec : forall self other prefix,
+  wf self -> wf other -> hdr self <> [] ->
+  NoDup (hdr self ++ prefixed right_ (hdr other)) ->
+  exists t,
+    joined self other None None false prefix = Ok t /\ wf t /\
+    hdr t = hdr self ++ prefixed right_ (hdr other) /\
+    rows t = spec_cross_join (rows self) (rows other).
+Proof. exact joined_cross_product. Qed.
 
 (** ---------------------------------------------------------------- sorting *)
 
-(** sorted(columns=, reverse=), every table and every argument on which the
-    model succeeds: the result holds the rows in the order of THE stable
-    insertion sort by the key the code builds ([code_key]: a column listed in
-    [reverse] is negated (ints) / translated through the reversed code-point
-    table (strings)); header and row count unchanged. *)
-Theorem sorted_is_stable_sort_by_code_key : forall t columns reverse t',
-  wf t -> (hdr t = [] -> nrows t = 0%nat) -> sorted t columns reverse = Ok t' ->
-  let cr := sort_columns t columns reverse in
-  hdr t' = hdr t /\ wf t' /\ nrows t' = nrows t /\
-  rows t' = isort_by (code_row_leb (hdr t) (fst cr) (snd cr)) (rows t).
-Proof. exact sorted_model_rows. Qed.
-
-(** the reversal trick is exact for ints, and for strings below code point 256
-    when neither is a proper prefix of the other *)
+(** the two reversal devices of the code reverse the order exactly: negation of
+    ints, and the negated rank among the distinct values of the column
+    (numpy.unique inverse index) for every other column -- strings (proper
+    prefixes included) and bools (False < True) *)
 Theorem reverse_key_int : forall x y,
   cell_cmp (reverse_cell (CI x)) (reverse_cell (CI y)) = cell_cmp (CI y) (CI x).
 Proof. exact reverse_int_cmp. Qed.
 
-Theorem reverse_key_str : forall a b, latin1 a -> latin1 b ->
-  (is_prefix a b = false \/ a = b) -> (is_prefix b a = false \/ a = b) ->
-  cell_cmp (reverse_cell (CS a)) (reverse_cell (CS b)) = cell_cmp (CS b) (CS a).
-Proof. exact reverse_str_cmp. Qed.
+Theorem reverse_key_rank : forall col x y, In x col -> In y col ->
+  cell_cmp (neg_rank_cell col x) (neg_rank_cell col y) = cell_cmp y x.
+Proof. exact neg_rank_reverses. Qed.
 
-(** hence: = sorted(rows, key tuple, per-column reverse) of a plain list of
-    rows, whenever every reversed key column is an int column or a prefix-free
-    latin-1 string column *)
+(** sorted(columns=, reverse=), every table and every argument on which the model
+    succeeds (int / str / bool key columns, any of them in reverse=, alone or as
+    one key of several): header and row count unchanged and the rows are
+    sorted(rows, key tuple, per-column reverse) of a plain list of rows -- THE
+    stable sort, see the four theorems below *)
 Theorem sorted_eq_spec_sorted : forall t columns reverse t',
   wf t -> (hdr t = [] -> nrows t = 0%nat) -> sorted t columns reverse = Ok t' ->
   let cr := sort_columns t columns reverse in
   NoDup (snd cr) ->
-  (forall c, In c (snd cr) -> In c (fst cr) -> col_reversible (col_of t c)) ->
+  hdr t' = hdr t /\ wf t' /\ nrows t' = nrows t /\
   rows t' = spec_sorted (hdr t) (rows t) (fst cr) (rev_flags (fst cr) (snd cr)).
 Proof. exact sorted_is_stable_sort. Qed.
 
@@ -113,14 +107,6 @@ Theorem spec_sorted_characterised : forall h a columns revs l,
              filter (leb_equiv (spec_row_leb h columns revs) r) a) ->
   l = spec_sorted h a columns revs.
 Proof. exact spec_sorted_unique. Qed.
-
-(** the side condition on reversed string columns is necessary: with "a", "ab",
-    "b" the faithful model returns b, a, ab where the reverse sort is b, ab, a *)
-Theorem sorted_reverse_str_prefix_refuted : exists t columns reverse t',
-  wf t /\ sorted t columns reverse = Ok t' /\
-  rows t' <> spec_sorted (hdr t) (rows t) (fst (sort_columns t columns reverse))
-               (rev_flags (fst (sort_columns t columns reverse)) (snd (sort_columns t columns reverse))).
-Proof. exact sorted_reverse_prefix_refuted. Qed.
 
 (** ---------------------------------------------------------------- selection, counting, derivation *)
 
